@@ -983,3 +983,48 @@ def rule_zero_sign_survives_int(ctx, rep, rid: str) -> None:
     rep.analysed["int_of_float_returns"] = n
     if n < 1:
         raise AnalysisError(f"{rid}: no int(float) return found in the value layer")
+
+
+# ---- the remainder of the host's fmod has the sign of the dividend ----------------------------------------
+
+
+def rule_fmod_parity(ctx, rep, rid: str, modules=("values", "vm", "context")) -> None:
+    """math.fmod(x, 2) is -1.0 for a negative odd x (C's fmod keeps the sign of the dividend; Python's % on numbers
+    follows the divisor).  A test `math.fmod(x, k) == r` with r > 0, or `> 0`, therefore says no to every negative
+    x: Math.pow(-0, -3) picks the sign of its infinity by exactly such a parity test."""
+    rep.rule(rid, "a remainder taken with math.fmod / math.remainder is compared with a positive constant (== r, > 0) only when the dividend is known to be non-negative (abs(..), or a test x >= 0 on the path); otherwise the comparison uses the magnitude or `!= 0`", floor=1)
+    from ..util import atoms, known_conditions
+
+    n = 0
+    for f in ctx.tree.funcs:
+        if isinstance(f.node, ast.Lambda) or f.module.name not in modules:
+            continue
+        locals_ = {a.targets[0].id: a.value for a in f.own_nodes() if isinstance(a, ast.Assign) and len(a.targets) == 1 and isinstance(a.targets[0], ast.Name)}
+        for c in f.own_nodes():
+            if not isinstance(c, ast.Compare) or len(c.ops) != 1:
+                continue
+            left, right = c.left, c.comparators[0]
+            if isinstance(left, ast.Name) and left.id in locals_:
+                left = locals_[left.id]
+            if not (isinstance(left, ast.Call) and norm(left.func) in ("math.fmod", "math.remainder") and len(left.args) == 2):
+                continue
+            if not (isinstance(right, ast.Constant) and isinstance(right.value, (int, float))):
+                continue
+            positive = (isinstance(c.ops[0], ast.Eq) and right.value > 0) or (isinstance(c.ops[0], (ast.Gt, ast.GtE)) and right.value >= 0 and not (isinstance(c.ops[0], ast.GtE) and right.value == 0))
+            if not positive:
+                continue
+            n += 1
+            x = left.args[0]
+            key = f"{f.qual}:{short(c, 40)}"
+            nonneg = isinstance(x, ast.Call) and norm(x.func) == "abs"
+            if not nonneg and isinstance(x, ast.Name):
+                xs = x.id
+                nonneg = any(norm(a).replace(" ", "") in (f"{xs}>=0", f"{xs}>0", f"0<={xs}", f"0<{xs}") and pol or norm(a).replace(" ", "") in (f"{xs}<0", f"{xs}<=0") and not pol for t, p in known_conditions(c, f.node) for a, pol in atoms(t, p))
+                v = locals_.get(xs)
+                nonneg = nonneg or (isinstance(v, ast.Call) and norm(v.func) == "abs")
+            if nonneg:
+                rep.ok(rid, key)
+            else:
+                rep.bad(rid, key, f"{f.qual} tests `{short(c, 50)}`: {norm(left.func)} keeps the sign of the dividend, so for a negative `{norm(x)}` the remainder is negative and the test fails for every negative odd value (Math.pow(-0, -3) and (-0) ** -5 must be -Infinity: the exponent -3 IS odd)", f"{f.module.rel}:{c.lineno}")
+    if n == 0:
+        rep.ok(rid, "no-signed-remainder-test", {"note": "no comparison of an fmod/remainder result with a positive constant in " + ", ".join(modules)})
